@@ -591,6 +591,38 @@ pub fn family(name: &str, tier: Tier) -> Vec<Scenario> {
                 }
             }
         },
+        // two sessions; the second cleans TWO files: one of fresh atoms and one mixing fresh atoms with
+        // atoms the first session stored (dedup hits after new data, while the session aggregator is
+        // non-empty), in both file orders
+        "F8" => {
+            let base = FileSpec::new(&[0, 1, 2, 3, 4, 5], 0, Feed::Whole);
+            let fresh: [u8; 2] = [6, 7];
+            let mixed: [u8; 4] = [0, 3, 6, 7];
+            let (l1, l2) = tier.pick((2, 3), (2, 4));
+            for w1 in words(2, l1) {
+                if w1.is_empty() {
+                    continue;
+                }
+                let w1: Vec<u8> = w1.iter().map(|&i| fresh[i as usize]).collect();
+                for w2 in words(4, l2) {
+                    if w2.is_empty() {
+                        continue;
+                    }
+                    let w2: Vec<u8> = w2.iter().map(|&i| mixed[i as usize]).collect();
+                    if !w2.iter().any(|a| *a < 6) {
+                        continue; // no old atom: nothing to dedup against
+                    }
+                    for flip in [false, true] {
+                        let (fa, fb) = (FileSpec::new(&w1, 0, Feed::Whole), FileSpec::new(&w2, 0, Feed::Whole));
+                        let files = if flip { vec![fb, fa] } else { vec![fa, fb] };
+                        v.push(Scenario {
+                            family: "F8".into(),
+                            sessions: vec![SessionSpec::seq(vec![base.clone()]), SessionSpec::seq(files)],
+                        });
+                    }
+                }
+            }
+        },
         // three sessions, all triples of words <= 2 over 3 atoms
         "F4" => {
             let ws = words(3, 2);
